@@ -103,6 +103,8 @@ ASSUMPTIONS = [
 TOL_FD = 1e-4          # measured worst on the unchanged tree: see final report / evidence worst_residuals.fd_rel
 TOL_FD_CONSIST = 1e-6  # two-h consistency needed before the FD value is used as an oracle
 TOL_SYM = 1e-8
+TOL_SMOOTH_D4 = 4e-6   # fourth difference of the analytic curvature over the widest stencil, relative, for h = 3.2e-2 x
+                       # (scaled with h^4); smooth points: 1.56e-6 (ideal term) .. 2.8e-6 (concentrated magnetic bcc)
 TOL_REF = 1e-9         # dMudX vs analytic projected Hessian of the phase record (floating point; measured 8e-15)
 TOL_IMAG = 1e-12
 TOL_COLSUM = 1e-12
@@ -110,8 +112,9 @@ TOL_DARKEN = 1e-6
 TOL_R_ABS = 1e-3       # |R_eff - 8.3145|
 TOL_R_SAME = 1e-10     # all elements of a point show the same R_eff; compiled vs symbolic mobility
 R_NOMINAL = 8.3145
-H_REL_SETS = [[3.2e-2, 1.6e-2, 8e-3], [4.5e-2, 2.25e-2, 1.125e-2], [2.2e-2, 1.1e-2, 5.5e-3],
-              [6.4e-2, 3.2e-2, 1.6e-2]]   # FD step / min(x_j, x_ref): h, h/2, h/4; later sets are retries
+H_REL_SETS = [[3.2e-2, 1.6e-2, 8e-3], [2.6e-2, 1.3e-2, 6.5e-3], [2.2e-2, 1.1e-2, 5.5e-3]]
+# FD step / min(x_j, x_ref): h, h/2, h/4; later sets are retries (never wider than the first: the smoothness probe
+# loses sensitivity as h^4)
 NT_XMIN = 1e-4
 
 # ------------------------------------------------------------------------------------------------ systems
@@ -222,8 +225,10 @@ def _therm(case):
         from kawin.thermo import GeneralThermodynamics, BinaryThermodynamics, MulticomponentThermodynamics
         cls = {'general': GeneralThermodynamics, 'binary': BinaryThermodynamics,
                'multi': MulticomponentThermodynamics}[case['cls']]
-        # fresh Database per object: kawin adds a DIS_<matrix> phase to the database it is given
-        _THERM[key] = cls(Database(_source(case['system'])), list(case['elements']), list(case['phases']))
+        # built from the TDB *string* (re-parsed for every object, as the repository tests do): kawin inserts a
+        # DIS_<matrix> copy of the matrix parameters into the Database object it is given, so a parsed Database must
+        # never be shared between objects
+        _THERM[key] = cls(_source(case['system']), list(case['elements']), list(case['phases']))
     return _THERM[key]
 
 
@@ -395,31 +400,28 @@ def _fd_G(therm, phase, els, X, T, hrel):
     return dMU @ np.linalg.inv(dP), ends
 
 
-def _model_smooth(cs0, ends0, ends1, labels, ref0):
+def _model_smooth(cs0, ends0, ends1, labels, ref0, hrel0):
     """Kawin-independent probe: is the Gibbs-energy model smooth across the finite-difference stencil?
 
     The IHJ magnetic model of the shipped databases is only piecewise smooth in composition (surfaces T = Tc(x),
     Tc(x) = 0, beta(x) = 0: the second derivative of G jumps there - measured 7e-6 relative at beta = 0 in Ni-Cr,
     ~10 % at the Curie surface of bcc Fe-Cr).  A central difference whose stencil contains such a surface converges
-    to the mean of the two one-sided curvatures for all h, so the two-h test cannot see it.  Probe: second differences
-    S(h) = Hp(x+h) - 2 Hp(x) + Hp(x-h) of the analytic curvature Hp of the phase record must scale as h^2
-    (S(h)/S(h/2) = 4 +- 0.1 wherever S is above 1e-7 of the curvature scale).  -> (ok, worst |ratio - 4|)"""
+    to the mean of the two one-sided curvatures for all h, so the two-h test cannot see it.  Probe: the fourth
+    difference of the analytic curvature Hp of the phase record over the five equally spaced stencil points
+    x-h, x-h/2, x, x+h/2, x+h equals a^4 d4Hp/dx4 for a smooth model (1.6e-6 of Hp for the ideal-solution term
+    with h = 3.2e-2 x) and is at least |J| if Hp jumps by J anywhere inside the stencil.
+    -> (ok, worst fourth difference relative to the curvature scale, normalised to h = 3.2e-2 x)"""
     H0 = _projected_hessian(cs0, labels, ref0)
     if H0 is None:
         return None, None
     scale = np.sqrt(np.abs(np.outer(np.diag(H0), np.diag(H0))))
     worst = 0.0
     for (p0, m0), (p1, m1) in zip(ends0, ends1):
-        S0 = _projected_hessian(p0, labels, ref0) - 2 * H0 + _projected_hessian(m0, labels, ref0)
-        S1 = _projected_hessian(p1, labels, ref0) - 2 * H0 + _projected_hessian(m1, labels, ref0)
-        big = (np.abs(S1) > 1e-7 * scale) | (np.abs(S0) > 4e-7 * scale)
-        if not np.any(big):
-            continue
-        with np.errstate(all='ignore'):
-            r = np.where(big, S0 / np.where(S1 == 0, np.nan, S1), 4.0)
-        dev = np.nanmax(np.abs(np.where(np.isfinite(r), r, np.inf) - 4.0))
-        worst = max(worst, float(dev))
-    return worst <= 0.1, worst
+        d4 = (_projected_hessian(p0, labels, ref0) + _projected_hessian(m0, labels, ref0)
+              - 4.0 * (_projected_hessian(p1, labels, ref0) + _projected_hessian(m1, labels, ref0)) + 6.0 * H0)
+        worst = max(worst, float(np.max(np.abs(d4) / scale)))
+    worst *= (3.2e-2 / hrel0) ** 4
+    return worst <= TOL_SMOOTH_D4, worst
 
 
 def _H_from_G(G, labels, els, ref):
@@ -466,13 +468,13 @@ def _fd_oracle(therm, phase, els, labels, cs0, X, T, R):
             ends.append(e)
         if len(Gs) < 3:
             continue
-        smooth, dev = _model_smooth(cs0, ends[0], ends[1], labels, els[0])
+        smooth, dev = _model_smooth(cs0, ends[0], ends[1], labels, els[0], hset[0])
         if smooth is None:
             return None, None, 'fd_probe_not_applicable'
         if not smooth:
-            R.info.setdefault('nonsmooth_at', []).append({'x': X, 'T': T, 'ratio_dev': dev})
+            R.info.setdefault('nonsmooth_at', []).append({'x': X, 'T': T, 'd4': dev})
             return None, None, 'fd_model_nonsmooth_in_stencil'
-        R.worst('smooth_ratio_dev', dev)
+        R.worst('smooth_d4', dev)
         out = {}
         worst = 0.0
         for ref in labels:
